@@ -906,6 +906,32 @@ theorem ctxFree_insert (i : Nat) (l : Layer) (c : Ctx) (h : ctxFree c = true) (h
   simp only [List.all_eq_true]
   exact ⟨fun x hx => hall x (List.mem_of_mem_take hx), fun x hx => hall x (List.mem_of_mem_drop hx)⟩
 
+theorem foldl_lastIndex_bound {α} (p : α → Bool) : ∀ (xs : List α) (k : Nat) (acc : Option Nat) (j : Nat),
+    (∀ a, acc = some a → a < k) →
+    (xs.zipIdx k).foldl (fun acc (x, i) => if p x then some i else acc) acc = some j → j < k + xs.length
+  | [], k, acc, j, ha, h => by
+    simp only [List.zipIdx_nil, List.foldl_nil] at h
+    have := ha j h; simp only [List.length_nil, Nat.add_zero]; exact this
+  | x :: rest, k, acc, j, ha, h => by
+    simp only [List.zipIdx_cons, List.foldl_cons] at h
+    have := foldl_lastIndex_bound p rest (k + 1) _ j (by
+      intro a hacc
+      split at hacc
+      · injection hacc with hacc; omega
+      · have := ha a hacc; omega) h
+    simp only [List.length_cons]; omega
+
+theorem getLastIndex_lt {α} (p : α → Bool) (xs : List α) (j : Nat) (h : getLastIndex p xs = some j) : j < xs.length := by
+  have := foldl_lastIndex_bound p xs 0 none j (by intro a ha; cases ha) (by simpa [getLastIndex] using h)
+  omega
+
+/-- a variable set on the top layer is what a lookup finds, wherever below the top another layer is inserted -/
+theorem ctxGet_insert_below_top (U : Ctx) (top e : Layer) (i : Nat) (d : Str) (v : Val) (hi : i ≤ U.length)
+    (ht : lookupL d top = some v) : ctxGet (insertAt i e (U ++ [top])) d = some v := by
+  have : insertAt i e (U ++ [top]) = (U.take i ++ e :: U.drop i) ++ [top] := by
+    simp only [insertAt, List.take_append_of_le_length hi, List.drop_append_of_le_length hi, List.append_assoc, List.cons_append]
+  rw [this, ctxGet_append_one, ht]
+
 /-- `SlotNode.render` on an instance of the fragment: what is rendered, in which context — or the reason nothing is.
 `nm` is the name the slot tag resolves to. -/
 theorem slot_unfolds (env : Env) (n : Nat) (nameE : Expr) (isRequired : Bool) (data : List (Str × Expr)) (body : List Node)
@@ -917,6 +943,7 @@ theorem slot_unfolds (env : Env) (n : Nat) (nameE : Expr) (isRequired : Bool) (d
           (∀ k, internal k = false → k ≠ compVarsKey → ctxGet c3 k = ctxGet ctx k) ∧
           (renderSlot env (n + 1) nameE false isRequired data body ctx).run.run w = (renderNodes env n body c3).run.run w) ∨
        (∃ f, sGet (slotNameOf (evalExpr ctx nameE)) cc.fills = some f ∧
+          (∀ d, f.dataVar = some d → ctxGet c3 d = some (.dict (evalKwargs ctx data))) ∧
           (renderSlot env (n + 1) nameE false isRequired data body ctx).run.run w = (renderNodes env n f.nodes c3).run.run w))) := by
   by_cases hdeep : (evalKwargs ctx data).any (fun kv => tooDeep 10 kv.2) = true
   · left; exact ⟨.budget, by unfold renderSlot; simp only [hdeep, ↓reduceIte, run_bind, run_throw]⟩
@@ -1033,14 +1060,26 @@ theorem slot_unfolds (env : Env) (n : Nat) (nameE : Expr) (isRequired : Bool) (d
       split
       · exact hocf
       · exact hc
-    have hmain : ∃ c3, ctxFree c3 = true ∧
+    have hmain : ∃ c3, ctxFree c3 = true ∧ (∀ d, f.dataVar = some d → ctxGet c3 d = some (.dict (evalKwargs ctx data))) ∧
         (renderSlot env (n + 1) nameE false isRequired data body ctx).run.run w = (renderNodes env n f.nodes c3).run.run w := by
       unfold renderSlot
       simp only [hdeep, hext, Bool.false_eq_true, ↓reduceIte, run_bind, run_pure, hcid, run_get, hcc, hdyn,
         slotChecks_named, ne_eq, not_true_eq_false, hh, Bool.not_true, hoc, Option.isNone_some, Bool.and_false, Bool.false_and,
         hfill, requiredCheck, Option.isNone_some, Bool.and_self, Bool.true_and, Bool.not_false, Option.getD_some, Option.isSome_some,
         hfc, hfd]
-      refine ⟨_, ?_, rfl⟩
+      refine ⟨_, ?_, ?_, rfl⟩
+      rotate_left
+      · -- the slot's data under the alias the fill asked for
+        intro d hd
+        simp only [hd, ctxSetTop_append_one]
+        split
+        · rename_i i hidx
+          refine ctxGet_insert_below_top _ _ _ i d _ ?_ (lookupL_setL_same ..)
+          have := getLastIndex_lt _ _ _ hidx
+          simp only [List.length_append, List.length_cons, List.length_nil] at this
+          omega
+        · refine ctxGet_insert_below_top _ _ _ _ d _ ?_ (lookupL_setL_same ..)
+          simp only [List.length_append, List.length_cons, List.length_nil]; omega
       have hdict : slotFree (Val.dict (evalKwargs ctx data)) = true := by
         simp only [slotFree]; exact evalKwargs_free ctx hc data
       have hc1 : ctxFree (match f.dataVar with
@@ -1060,8 +1099,8 @@ theorem slot_unfolds (env : Env) (n : Nat) (nameE : Expr) (isRequired : Bool) (d
       split
       · exact ctxFree_insert _ _ _ hc1 hfe
       · exact ctxFree_insert _ _ _ hc1 hfe
-    obtain ⟨c3, h1, h3⟩ := hmain
-    exact ⟨cid, cc, c3, hcid, hcc, h1, Or.inr ⟨f, hfill, h3⟩⟩
+    obtain ⟨c3, h1, h2, h3⟩ := hmain
+    exact ⟨cid, cc, c3, hcid, hcc, h1, Or.inr ⟨f, hfill, h2, h3⟩⟩
 
 theorem stmt_node (env : Env) (n : Nat) (ih : Stmt env n) :
     ∀ nd ctx w toks w', tnode nd = true → ctxFree ctx = true → WInv w →
@@ -1141,7 +1180,7 @@ theorem stmt_slot (env : Env) (n : Nat) (ih : Stmt env n) :
   · rw [he] at h
     obtain ⟨rfl, rfl⟩ := ok_inj h
     exact Bal.refl env w
-  · rcases hcase with ⟨_, _, he⟩ | ⟨f, hf, he⟩
+  · rcases hcase with ⟨_, _, he⟩ | ⟨f, hf, _, he⟩
     · rw [he] at h
       exact ih.nodes body c3 w toks w' hb hc3 hw h
     · rw [he] at h
